@@ -734,10 +734,12 @@ where
                         .members
                         // Down is terminal, so before doing that we ensure the member
                         // is still under suspicion.
-                        // Checking only incarnation is sufficient because to refute
-                        // suspicion the member must increment its own incarnation
+                        // To refute suspicion the member must increment its own
+                        // incarnation. The identity must match too: the record may
+                        // have been forgotten and the address taken over by an
+                        // identity that was never under suspicion
                         .apply_existing_if(as_down.clone(), |member| {
-                            member.incarnation() == incarnation
+                            member.id() == &member_id && member.incarnation() == incarnation
                         })
                     {
                         let apply_successful = summary.apply_successful;
